@@ -665,12 +665,14 @@ def pp_clean(rep, wd, rng, quick):
     for ci, c in enumerate(cases):
         if any(x in pp_engine.ENV_NAMES for x in c["clean"]["removed"]):
             continue   # a temp directive aimed at one of the project's plain files: outside the domain (D8), nothing to restore
-        for hist in (["build", "clean"], ["clean"], ["build", "clean", "clean"]):
-            if hist != ["build", "clean"] and rng.random() > 0.2:
+        # a temp file removed by hand (or by another source) before the clean: what is left must still go
+        by_hand = [["build", ("delete", t), "clean"] for t in sorted(set(c["clean"]["removed"]))]
+        for hist in [["build", "clean"], ["clean"], ["build", "clean", "clean"]] + by_hand:
+            if hist != ["build", "clean"] and hist not in by_hand and rng.random() > 0.2:
                 continue
             le = rng.choice(["\n", "\r\n"])
             files = [dict(path="b/s.txt.txtpp", text=pp_engine.render_source(c["src"], le))]
-            steps = [dict(run=dict(base="b", inputs=["s.txt.txtpp", "d1.txtpp"], mode=h, threads=2)) for h in hist]
+            steps = [dict(delete="b/" + h[1]) if isinstance(h, tuple) else dict(run=dict(base="b", inputs=["s.txt.txtpp", "d1.txtpp"], mode=h, threads=2)) for h in hist]
             vcases.append(dict(id=str(ci), template="ppenv", report="changed", files=files, steps=steps))
             meta.append((c, hist))
     res = pp_engine.vh_cases(vcases, wd, "ppclean")
